@@ -56,7 +56,7 @@ def run(ctx):
                 meta.append(("si-exact-lag", n, p))
                 ctx.case(("si-exact-lag", n, p % 10))
     # long records
-    for k in range(60 if T else 20):
+    for k in range(200 if T else 20):
         n = rnd.choice([10, 101, 1000, 4097, 10001, 2 ** 15 + 3] + ([2 ** 17] if T else []))
         dist = rnd.choice(["gauss", "uniform", "sine", "quantised"])
         rs = np.random.RandomState(k)
@@ -97,7 +97,7 @@ def run(ctx):
                 adc_event(d, n, ot, 1.0, (L + n) % 3)
                 meta.append(("adc", L, n, ot))
                 ctx.case(("adc-small", L, n, ot), {"ADC": [d, n, ot]} if L == 4 else None)
-    for k in range(40 if T else 14):
+    for k in range(150 if T else 14):
         n = rnd.choice([2, 50, 1000, 9999, 10001, 20001, 2 ** 15 + 1] + ([2 ** 17] if T else []))
         rs = np.random.RandomState(100 + k)
         dist = rnd.choice(["gauss", "uniform", "sine", "quantised"])
